@@ -13,6 +13,7 @@ import (
 	"encoding/base64"
 	"encoding/hex"
 	"fmt"
+	"os"
 	"runtime/debug"
 
 	"verif/common"
@@ -46,13 +47,6 @@ func pat(k, n int) []byte {
 }
 
 func hx(b []byte) string { return hex.EncodeToString(b) }
-
-func lenClass(n int) string {
-	if n%16 == 0 {
-		return "block-aligned-plaintext"
-	}
-	return "partial-block-plaintext"
-}
 
 // ---- independent oracles -------------------------------------------------------------------------
 
@@ -222,7 +216,16 @@ func call(f func() ([]byte, error)) (out []byte, err error, stack string) {
 
 func main() {
 	r := common.Start("C09", "model_checking")
-	debug.SetGCPercent(800) // many short-lived 32 KiB io.Copy buffers; the live heap is tiny
+	// io.Copy inside golib allocates a 32 KiB buffer per call: tens of millions of short-lived
+	// buffers over a tiny live heap. Collect by a 1 GiB ceiling instead of by growth ratio.
+	debug.SetGCPercent(-1)
+	debug.SetMemoryLimit(1 << 30)
+	if v := os.Getenv("C09_GC"); v != "" {
+		var pc, mb int64
+		fmt.Sscanf(v, "%d:%d", &pc, &mb)
+		debug.SetGCPercent(int(pc))
+		debug.SetMemoryLimit(mb << 20)
+	}
 	saved := srand.Reader
 	defer func() { srand.Reader = saved }()
 	a := newAgg()
@@ -238,6 +241,7 @@ func main() {
 	streams(r, a)
 	srand.Reader = saved
 	opensslBonus(r)
+	stopProf()
 	a.flush(r)
 	r.Assume(
 		"small-scope: plaintext lengths 0..40 in three byte patterns, secrets \"\", \"k\" and a 40-byte one as string and []byte, AAD \"\" and \"a\", three salts supplied through crypto/rand.Reader (replaced by a script for the run and restored)",
@@ -265,7 +269,6 @@ func cbcMessages(r *common.Run, a *agg, si int) {
 			for ki, s := range secrets {
 				msg := oracleMsg(p, s, salt)
 				rank := int64(n)*100 + int64(ki)*10 + int64(pp)
-				cls := lenClass(n)
 				for sk := 0; sk < 2; sk++ {
 					c := map[string]any{"plaintext": hx(p), "secret": string(s), "secret_type": kinds[sk], "salt": hx(salt)}
 					var outs [][]byte
@@ -276,15 +279,15 @@ func cbcMessages(r *common.Run, a *agg, si int) {
 						}
 						out, err, st := call(func() ([]byte, error) { return gEncrypt(p, pk, s, sk) })
 						if st != "" {
-							l.report("Encrypt|panic|"+cls, rank, "Encrypt panicked at "+common.PanicSite(st), map[string]any{"case": c, "stack": st}, "")
+							l.report("Encrypt|panic", rank, "Encrypt panicked at "+common.PanicSite(st), map[string]any{"case": c, "stack": st}, "")
 							continue
 						}
 						if err != nil {
-							l.report("Encrypt|error-on-valid|"+cls, rank, fmt.Sprintf("Encrypt returned %v", err), c, "")
+							l.report("Encrypt|error-on-valid", rank, fmt.Sprintf("Encrypt returned %v", err), c, "")
 							continue
 						}
 						if why := checkEnvelope(out, p, s); why != "" {
-							l.report("Encrypt|not-openssl-format|"+cls, rank, "Encrypt output "+string(out)+": "+why, c, "")
+							l.report("Encrypt|not-openssl-format", rank, "Encrypt output "+string(out)+": "+why, c, "")
 						}
 						if pk == 0 {
 							outs = append(outs, out)
@@ -311,11 +314,9 @@ func cbcMessages(r *common.Run, a *agg, si int) {
 							}
 							switch {
 							case st != "":
-								l.report(entry+"|panic|"+cls, rank, "Decrypt panicked at "+common.PanicSite(st), map[string]any{"case": c2, "stack": st}, "")
-							case err != nil:
-								l.report(entry+"|error-on-valid|"+cls, rank, fmt.Sprintf("Decrypt returned %v", err), c2, "")
-							case !bytes.Equal(got, p):
-								l.report(entry+"|wrong-plaintext|"+cls, rank, fmt.Sprintf("Decrypt returned %s, want %s", hx(got), hx(p)), c2, "")
+								l.report(entry+"|panic", rank, "Decrypt panicked at "+common.PanicSite(st), map[string]any{"case": c2, "stack": st}, "")
+							case err != nil || !bytes.Equal(got, p):
+								l.report(entry+"|fails-on-valid-message", rank, fmt.Sprintf("Decrypt returned %s, %v; want %s", hx(got), err, hx(p)), c2, "")
 							}
 						}
 					}
@@ -324,12 +325,12 @@ func cbcMessages(r *common.Run, a *agg, si int) {
 					raw, err, st := call(func() ([]byte, error) { return gRawEncrypt(p, s, sk) })
 					switch {
 					case st != "":
-						l.report("SaltBySecretCBCEncrypt|panic|"+cls, rank, "panicked at "+common.PanicSite(st), map[string]any{"case": c, "stack": st}, "")
+						l.report("SaltBySecretCBCEncrypt|panic", rank, "panicked at "+common.PanicSite(st), map[string]any{"case": c, "stack": st}, "")
 					case err != nil:
-						l.report("SaltBySecretCBCEncrypt|error-on-valid|"+cls, rank, fmt.Sprintf("returned %v", err), c, "")
+						l.report("SaltBySecretCBCEncrypt|error-on-valid", rank, fmt.Sprintf("returned %v", err), c, "")
 					default:
 						if why := checkRaw(raw, p, s); why != "" {
-							l.report("SaltBySecretCBCEncrypt|not-openssl-format|"+cls, rank, "output "+hx(raw)+": "+why, c, "")
+							l.report("SaltBySecretCBCEncrypt|not-openssl-format", rank, "output "+hx(raw)+": "+why, c, "")
 						}
 					}
 					want := oracleRaw(p, s, salt)
@@ -339,11 +340,9 @@ func cbcMessages(r *common.Run, a *agg, si int) {
 						c2 := map[string]any{"envelope": hx(want), "secret": string(s), "secret_type": kinds[sk], "reuse": reuse, "plaintext": hx(p)}
 						switch {
 						case st != "":
-							l.report("SaltBySecretCBCDecrypt|panic|"+cls, rank, "panicked at "+common.PanicSite(st), map[string]any{"case": c2, "stack": st}, "")
-						case err != nil:
-							l.report("SaltBySecretCBCDecrypt|error-on-valid|"+cls, rank, fmt.Sprintf("returned %v", err), c2, "")
-						case !bytes.Equal(got, p):
-							l.report("SaltBySecretCBCDecrypt|wrong-plaintext|"+cls, rank, fmt.Sprintf("returned %s, want %s", hx(got), hx(p)), c2, "")
+							l.report("SaltBySecretCBCDecrypt|panic", rank, "panicked at "+common.PanicSite(st), map[string]any{"case": c2, "stack": st}, "")
+						case err != nil || !bytes.Equal(got, p):
+							l.report("SaltBySecretCBCDecrypt|fails-on-valid-message", rank, fmt.Sprintf("returned %s, %v; want %s", hx(got), err, hx(p)), c2, "")
 						}
 					}
 				}
@@ -457,11 +456,8 @@ func gcmMessages(r *common.Run, a *agg, si int) {
 							case st != "":
 								l.report("GCMDecrypt(GCMEncrypt)|panic", rank, "GCMDecrypt panicked at "+common.PanicSite(st), map[string]any{"case": c, "stack": st}, "")
 								continue
-							case err != nil:
-								l.report("GCMDecrypt(GCMEncrypt)|error-on-valid", rank, fmt.Sprintf("GCMDecrypt returned %v", err), c, "")
-								continue
-							case !bytes.Equal(got, p):
-								l.report("GCMDecrypt(GCMEncrypt)|wrong-plaintext", rank, fmt.Sprintf("GCMDecrypt returned %s, want %s", hx(got), hx(p)), c, "")
+							case err != nil || !bytes.Equal(got, p):
+								l.report("GCMDecrypt(GCMEncrypt)|fails-on-valid-message", rank, fmt.Sprintf("GCMDecrypt returned %s, %v; want %s", hx(got), err, hx(p)), c, "")
 								continue
 							}
 							if ak != sk {
